@@ -1724,6 +1724,10 @@ class Parallel(Logger):
                 )
 
                 detach_generator_exit = True
+                # Stop dispatching (and consuming the input) right away: the
+                # thread below may only run some time after the generator
+                # has been closed.
+                self._aborting = True
                 _parallel = self
 
                 class _GeneratorExitThread(threading.Thread):
